@@ -624,5 +624,5 @@ def show_key(key):
         if v[0] == 'r':
             return '(' + show_key(v[1]) + (('@' + v[1][3]) if v[1][3] else '') + ')'
         return '%s:%r' % v
-    return '%s:%s.%s' % (key[0], key[1], ','.join('%s=%s' % (n, val(v)) for n, v in
-                                                   sorted(key[2], key=repr)))
+    keys = ','.join('%s=%s' % (n, val(v)) for n, v in sorted(key[2], key=repr))
+    return '%s:%s.%s' % (key[0], key[1], keys)
